@@ -235,7 +235,20 @@ package db
 //@   ensures [page] err == nil ==> len(r0) == db.header.PageSize && fresh(r0) && page_of(r0, id, cc_now)
 //@   ensures [size] err == nil ==> len(r0) >= 512 && len(r0) <= 65536
 //@   ensures [invalid] id < 1 ==> err != nil
+//@   trusted-ensures [perr] err != nil ==> page_err(err)
 
+// addOverflow: the result is the local bytes followed, page by page, by the content bytes (everything
+// after the 4-byte next pointer; `buf` below is that part of the page) of the overflow chain, cut to the declared length. Per page the
+// step clauses say: what was assembled so far is kept, the page's content is appended (all of it, or
+// as much as completes the payload), and the chain continues at the page's big-endian next pointer.
+// Nothing that existed before the call is written ([noclobber]: the local part aliases the cached
+// page, so an in-place append would corrupt the neighbouring cells), and the only failures are the
+// pager's and a chain that ends early ([noinvent]).
+// [room] is ASSUMED (free-requires, listed in the evidence): the local part of a spilled payload is
+// cut out of a page (parsePayload, verified: [room] there), so its spare capacity is less than the
+// content of one overflow page and the first append can never happen in place.
+//@ smt ovfl
+//@ (declare-fun page_err (Iface) Bool)
 //@ func db.addOverflow
 //@   props C01 C02 C05 C12 C14 C18
 //@   modifies M:bv8 alloc
@@ -247,6 +260,17 @@ package db
 //@   loop 1 invariant 0 <= len(to) && len(to) <= cap(to) && cap(to) <= 1099512676352 && ule(off(to), 4611686018427387904)
 //@   loop 1 invariant pl.Overflow == 0 ==> overflow == 0 && to == pl.Payload
 //@   loop 1 invariant reg(to) == reg(pl.Payload) || fresh(to)
+//@   free-requires [room] pl.Overflow != 0 ==> cap(pl.Payload) - len(pl.Payload) < db.header.PageSize - 4
+//@   ensures [noclobber] bytes_kept()
+//@   ensures [noinvent] err != nil ==> page_err(err) || (overflow == 0 && len(to) < pl.Length)
+//@   ensures [prefix] err == nil ==> len(to) >= pl.Length && (forall k int :: 0 <= k && k < pl.Length ==> r0[k] == to[k])
+//@   loop 1 invariant [noclobber] bytes_kept()
+//@   loop 1 invariant [room] fresh(to) || pl.Overflow == 0 || cap(to) - len(to) < db.header.PageSize - 4
+//@   loop 1 invariant [local] len(to) >= len(pl.Payload) && (forall k int :: 0 <= k && k < len(pl.Payload) ==> to[k] == old(pl.Payload[k]))
+//@   loop 1 step [grow] len(to) >= pre(len(to)) && len(to) - pre(len(to)) <= len(buf) && (len(to) - pre(len(to)) == len(buf) || len(to) >= pl.Length) && len(buf) == db.header.PageSize - 4
+//@   loop 1 step [kept] forall k int :: 0 <= k && k < pre(len(to)) ==> to[k] == pre(to[k])
+//@   loop 1 step [content] forall k int :: 0 <= k && k < len(to) - pre(len(to)) ==> to[pre(len(to)) + k] == buf[k]
+//@   loop 1 step [next] overflow == int(uint32(mem(buf)[off(buf) - 4]) << 24 | uint32(mem(buf)[off(buf) - 3]) << 16 | uint32(mem(buf)[off(buf) - 2]) << 8 | uint32(mem(buf)[off(buf) - 1]))
 //@   loop 1 decreases pl.Length - len(to)
 
 // User-level callback of Table.Scan: the rowid and the decoded record of item `pos`.
